@@ -53,7 +53,7 @@ PHI = [0.0, math.pi / 6, math.pi / 2, math.pi, 5 * math.pi / 4,
 POLANG = [0.0, 30.0, 90.0, 135.0]
 OPTS = [(True, True), (True, False), (False, True), (False, False)]
 
-LAY_N = [1.45, 1.59, N_MED]           # last letter = medium index
+LAY_N = [1.45, 1.59, N_MED, 1.59 + 0.05j]     # index 2 = medium index
 LAY_PATTERNS = [[0.2, 0.35, 0.5, 0.65], [0.05, 0.3, 0.32, 0.9]]
 
 
@@ -69,7 +69,7 @@ def _lay_seqs(tier):
     out = []
     maxlen = 4 if tier == "thorough" else 3
     for L in range(1, maxlen + 1):
-        for seq in itertools.product(range(3), repeat=L):
+        for seq in itertools.product(range(len(LAY_N)), repeat=L):
             out.append(list(seq))
     return out
 
